@@ -2,14 +2,29 @@
 // masswallet/ntfnshandler.go. Control is exercised only from outside: the database wrapper
 // (internal/sched) holds goroutines at BeginTx / Commit / bucket operations; the harness decides
 // when blocks are announced, when wallets are imported or removed and when Stop is called.
-// One schedule = one worker process (a hung one is simply abandoned / killed).
+// One schedule = one worker process (a hung one is simply abandoned / killed by the parent).
+//
+// parent:  c20 -in <schedules> -out <results> -j N     (S lines of ocaml/C20/driver.ml + built-ins)
+// worker:  c20 -worker -spec "<S line>"  |  c20 -worker -scenario f1det-remove|f1det-import|nilrace|race-stop
+//
+// result line:  R id=.. blocks=.. reqs=.. stop=.. steered=k/n diverged=0|1 outcome=stopped|hang|idle|busy|panic obs=a,hb,..
+// observable alphabet (= labels of coq/Sched/Handshake.v):
+//
+//	a  block queued        ti/tr  import/removal accepted and queued      tp  API call panicked
+//	hb/hc  handler begins/ends its block transaction     kb/kc  worker begins/ends a task transaction
+//	s  Stop called         z  database closed
 package main
 
 import (
+	"bufio"
+	"bytes"
 	"flag"
 	"fmt"
 	"os"
+	"os/exec"
+	"strconv"
 	"strings"
+	"sync"
 	"time"
 
 	"verifharness/internal/rng"
@@ -17,14 +32,16 @@ import (
 	"verifharness/internal/sim"
 )
 
-var stopTimeout = 4 * time.Second
+var (
+	stopTimeout = 3 * time.Second
+	gateTimeout = 150 * time.Millisecond
+)
 
 func fail(format string, a ...interface{}) {
 	fmt.Printf("X harness-error "+format+"\n", a...)
 	os.Exit(0)
 }
 
-// obs prints the observable projection of the wrapper's trace.
 func obsLine(x *world) string {
 	var sb []string
 	for _, e := range x.ctl.Events() {
@@ -32,7 +49,10 @@ func obsLine(x *world) string {
 			sb = append(sb, s)
 		}
 	}
-	return strings.Join(sb, " ")
+	if len(sb) == 0 {
+		return "-"
+	}
+	return strings.Join(sb, ",")
 }
 
 // project maps a wrapper event to the model's observable alphabet ("" = not observable).
@@ -58,13 +78,279 @@ func project(e sched.Event) string {
 		}
 	case sched.Other:
 		switch e.Point {
-		case "s", "a", "ti", "tr", "tb", "tp", "z":
+		case "s", "a", "ti", "tr", "tb", "tp":
 			return e.Point
 		case "close":
 			return "z"
 		}
 	}
 	return ""
+}
+
+func filterStacks(d string) string {
+	var keep []string
+	for _, blk := range strings.Split(d, "\n\n") {
+		if strings.Contains(blk, "mass-wallet/masswallet.") {
+			keep = append(keep, blk)
+		}
+	}
+	return strings.Join(keep, "\n\n")
+}
+
+// report prints the result line; on a hang also where the three threads stand and their stacks.
+func report(x *world, id string, blocks int, reqs string, stop bool, steered, total int, diverged bool, outcome, extra string) {
+	st := 0
+	if stop {
+		st = 1
+	}
+	dv := 0
+	if diverged {
+		dv = 1
+	}
+	if reqs == "" {
+		reqs = "-"
+	}
+	fmt.Printf("R id=%s blocks=%d reqs=%s stop=%d steered=%d/%d diverged=%d outcome=%s obs=%s%s\n",
+		id, blocks, reqs, st, steered, total, dv, outcome, obsLine(x), extra)
+	if outcome == "hang" {
+		g := sched.Find("masswallet.worker(")
+		where := "gone"
+		if g != nil {
+			where = g.State
+			if strings.Contains(g.Text, ").suspend(") {
+				where += " in NtfnsHandler.suspend"
+			}
+		}
+		s := sched.Find("NtfnsHandler).Stop(")
+		sw := "gone"
+		if s != nil {
+			sw = s.State
+		}
+		h := sched.Find("masswallet.handle(")
+		hw := "gone"
+		if h != nil {
+			hw = h.State
+		}
+		fmt.Printf("D id=%s worker=[%s] stopper=[%s] handler=[%s]\n", id, where, sw, hw)
+		fmt.Printf("STACKS-BEGIN id=%s\n%s\nSTACKS-END\n", id, filterStacks(sched.Dump()))
+	}
+}
+
+// finish waits for the outcome after the steering is over.
+func finish(x *world, stop bool) string {
+	if stop {
+		if x.stopReturned(stopTimeout) {
+			return "stopped"
+		}
+		// not back yet: a hang only if the wallet's goroutines do not move any more (on a loaded
+		// machine they may just be slow): compare their stacks over time, for at most 20 s more
+		prev := filterStacks(sched.Dump())
+		for i := 0; i < 40; i++ {
+			if x.stopReturned(500 * time.Millisecond) {
+				return "stopped"
+			}
+			cur := filterStacks(sched.Dump())
+			if cur == prev && i >= 1 {
+				return "hang"
+			}
+			prev = cur
+		}
+		return "hang"
+	}
+	idle := func() bool {
+		if x.w.H.VerifQueueLen() != 0 || x.w.H.VerifTaskQueueLen() != 0 {
+			return false
+		}
+		h, k := sched.Find("masswallet.handle("), sched.Find("masswallet.worker(")
+		return h != nil && k != nil && h.State == "select" && k.State == "select"
+	}
+	ok := sched.Until(stopTimeout, func() bool {
+		if !idle() {
+			return false
+		}
+		time.Sleep(2 * time.Millisecond)
+		return idle()
+	})
+	out := "busy"
+	if ok {
+		out = "idle"
+	}
+	// clean shutdown outside the recorded trace
+	x.ctl.Tracing = false
+	if ok {
+		go x.w.WM.Stop()
+		time.Sleep(20 * time.Millisecond)
+	}
+	return out
+}
+
+// apiCall issues the next API request (kind 'i' = ImportWalletWithMnemonic, 'r' = RemoveWallet)
+// and returns the observable it produced: ti / tr, te (refused with an error), tp (panicked).
+func apiCall(x *world, kind byte, rem *[]rw, noteBefore bool) (label string, detail string) {
+	ok := "ti"
+	if kind == 'r' {
+		ok = "tr"
+	}
+	if noteBefore {
+		x.ctl.Note("api", ok)
+	}
+	label = ok
+	func() {
+		defer func() {
+			if r := recover(); r != nil {
+				label, detail = "tp", fmt.Sprintf("%v", r)
+				if x.ctl.IsClosed() {
+					// the database is closed: the request fails (by a nil bucket dereference
+					// instead of an error: reported separately, see api_panic_after_close)
+					label = "te"
+					detail = "panic-after-close: " + detail
+				}
+			}
+		}()
+		var err error
+		if kind == 'r' {
+			if len(*rem) == 0 {
+				fail("no wallet left to remove")
+			}
+			r := (*rem)[0]
+			*rem = (*rem)[1:]
+			err = x.w.WM.RemoveWallet(r.id, r.pass)
+		} else {
+			_, _, err = x.importWallet()
+		}
+		if err != nil {
+			label, detail = "te", err.Error()
+		}
+	}()
+	if !noteBefore || label != ok {
+		x.ctl.Note("api", label)
+	}
+	return
+}
+
+type rw struct{ id, pass string }
+
+// runSeq steers the real goroutines along one observable sequence of the model.
+func runSeq(seed uint64, id string, blocks int, reqs string, stop bool, seq []string) {
+	x, err := newWorld(seed, 2)
+	if err != nil {
+		fail("%v", err)
+	}
+	defer x.cleanup()
+	if err := x.start(true); err != nil {
+		fail("%v", err)
+	}
+	var removable []rw
+	var kinds []byte
+	for _, r := range strings.Split(reqs, ",") {
+		if r == "" {
+			continue
+		}
+		kinds = append(kinds, r[0])
+		if r[0] == 'r' {
+			wid, pass, err := x.createWallet()
+			if err != nil {
+				fail("create: %v", err)
+			}
+			removable = append(removable, rw{wid, pass})
+		}
+	}
+	x.ctl.SetHold(true)
+	steered, diverged := 0, false
+	extra := ""
+	waitPending := func(role sched.Role, points ...string) bool {
+		return sched.Until(gateTimeout, func() bool {
+			ev, ok := x.ctl.Pending(role)
+			if !ok {
+				return false
+			}
+			for _, p := range points {
+				if ev.Point == p {
+					return true
+				}
+			}
+			return false
+		})
+	}
+	diverge := func() {
+		if !diverged {
+			diverged = true
+			x.autoGrant()
+		}
+	}
+	nreq, nblk := 0, 0
+	for _, ev := range seq {
+		okEv := true
+		switch ev {
+		case "a", "ti", "tr", "te", "s":
+			// environment action: first let the threads run as far as they can on their own
+			x.settle(20 * time.Millisecond)
+		}
+		switch ev {
+		case "a":
+			b, err := x.mine()
+			if err != nil {
+				fail("mine: %v", err)
+			}
+			x.w.H.OnBlockConnected(b.MsgBlock())
+			x.ctl.Note("node", "a")
+			nblk++
+		case "ti", "tr", "te":
+			if nreq >= len(kinds) {
+				fail("more requests in the sequence than in the scenario")
+			}
+			got, detail := apiCall(x, kinds[nreq], &removable, false)
+			nreq++
+			if got != ev {
+				okEv = false
+				diverge()
+			}
+			if got == "tp" {
+				extra += fmt.Sprintf(" api_panic=%q", detail)
+			}
+			if strings.HasPrefix(detail, "panic-after-close") {
+				extra += " api_panic_after_close=1"
+			}
+		case "s":
+			x.stop()
+		case "hb", "hc", "kb", "kc":
+			if diverged {
+				continue
+			}
+			role := sched.Handler
+			if ev[0] == 'k' {
+				role = sched.Worker
+			}
+			pts := []string{"begin"}
+			if ev[1] == 'c' {
+				pts = []string{"commit", "abort"}
+			}
+			if !waitPending(role, pts...) {
+				okEv = false
+				diverge()
+			} else {
+				x.ctl.Grant(role)
+			}
+		case "z":
+			if diverged {
+				continue
+			}
+			if x.stopDone == nil || !x.stopReturned(gateTimeout) {
+				okEv = false
+				diverge()
+			}
+		default:
+			fail("unknown event %q", ev)
+		}
+		if okEv && !diverged {
+			steered++
+		}
+	}
+	x.autoGrant()
+	out := finish(x, stop && x.stopDone != nil)
+	x.autoStop = true
+	x.ctl.SetHold(false)
+	report(x, id, blocks, reqs, stop, steered, len(seq), diverged, out, extra)
 }
 
 // f1det: the deterministic schedule of DESIGN F1 (see the comments at each step).
@@ -88,20 +374,22 @@ func f1det(seed uint64, second string) {
 	// 1. hold the worker inside its first task (an import), right after that task's commit:
 	//    the handler is suspended (waiting for sigResume), the worker holds no lock.
 	gK := x.ctl.Arm(sched.Worker, "asyncImport", "commit", 0)
+	x.ctl.Note("import", "ti") // noted first: the worker is free to start the task at once
 	if _, _, err := x.importWallet(); err != nil {
 		fail("import: %v", err)
 	}
-	x.ctl.Note("import", "ti")
 	if !gK.Wait(5 * time.Second) {
 		fail("worker did not reach the commit of its import batch")
 	}
 	// 2. queue a second task behind it
+	reqs := "i0,r0"
 	if second == "remove" {
 		if err := x.w.WM.RemoveWallet(idB, passB); err != nil {
 			fail("remove: %v", err)
 		}
 		x.ctl.Note("remove", "tr")
 	} else {
+		reqs = "i0,i0"
 		if _, _, err := x.importWallet(); err != nil {
 			fail("import2: %v", err)
 		}
@@ -132,61 +420,30 @@ func f1det(seed uint64, second string) {
 	if !sched.Until(5*time.Second, func() bool { return sched.Find("masswallet.handle(") == nil }) {
 		fail("handler goroutine did not leave after quit was closed")
 	}
-	// 6. release the API client; the worker gets the mutex and sends on sigSuspend.
+	// 6. release the API client; the worker gets the mutex and reaches suspend().
 	gA.Release()
 	<-expDone
-	ret := x.stopReturned(stopTimeout)
-	out := "stopped"
-	if !ret {
-		out = "hang"
-	}
-	fmt.Printf("R f1det-%s outcome=%s closed=%v obs=%s\n", second, out, x.ctl.Closed, obsLine(x))
-	if !ret {
-		g := sched.Find("masswallet.worker(")
-		where := ""
-		if g != nil {
-			where = g.State
-			if strings.Contains(g.Text, ").suspend(") {
-				where += " in NtfnsHandler.suspend"
-			}
-		}
-		s := sched.Find("NtfnsHandler).Stop(")
-		sw := ""
-		if s != nil {
-			sw = s.State
-		}
-		fmt.Printf("D worker=[%s] stopper=[%s] handler_alive=%v\n", where, sw, sched.Find("masswallet.handle(") != nil)
-		fmt.Printf("STACKS-BEGIN\n%s\nSTACKS-END\n", filterStacks(sched.Dump()))
-	}
+	out := finish(x, true)
+	report(x, "f1det-"+second, 0, reqs, true, 0, 0, false, out, "")
 }
 
-// filterStacks keeps the goroutines of the wallet (handler, worker, Stop) of a dump.
-func filterStacks(d string) string {
-	var keep []string
-	for _, blk := range strings.Split(d, "\n\n") {
-		if strings.Contains(blk, "mass-wallet/masswallet.") {
-			keep = append(keep, blk)
-		}
-	}
-	return strings.Join(keep, "\n\n")
-}
-
-// nilrace: ImportWallet right after Start, before the worker goroutine created h.taskChan.
+// nilrace: an import request right after Start, while the worker goroutine has not run yet.
 func nilrace(seed uint64) {
 	x, err := newWorld(seed, 2)
 	if err != nil {
 		fail("%v", err)
 	}
 	defer x.cleanup()
-	// the worker goroutine's first action is a read transaction; hold it there
-	gK := x.ctl.Arm(sched.Worker, "worker", "view", 0)
+	// code as found: the worker goroutine's first action is the read transaction in which it
+	// creates h.taskChan; hold it there. Repaired code: Start() itself does that before the
+	// goroutine exists, the gate is never reached.
+	gK := x.ctl.Arm(sched.Worker, "", "view", 0)
 	if err := x.start(false); err != nil {
 		fail("%v", err)
 	}
-	if !gK.Wait(5 * time.Second) {
-		fail("worker goroutine did not reach its start-up view")
-	}
+	held := gK.Wait(300 * time.Millisecond)
 	res := "ok"
+	x.ctl.SetHold(true) // the worker's task transaction is recorded when granted, after "ti"
 	func() {
 		defer func() {
 			if r := recover(); r != nil {
@@ -198,33 +455,203 @@ func nilrace(seed uint64) {
 			res = "err: " + err.Error()
 		}
 	}()
-	out := "ok"
-	if strings.HasPrefix(res, "panic") {
-		out = "panic"
-		x.ctl.Note("import", "tp")
-	}
-	fmt.Printf("R nilrace outcome=%s detail=%q obs=%s\n", out, res, obsLine(x))
-	// the panic left WalletManager.mu locked (no defer ran past it? it did: defer w.mu.Unlock) — go on
 	gK.Release()
+	if res == "ok" {
+		x.ctl.Note("import", "ti")
+	}
+	x.autoGrant()
+	if strings.HasPrefix(res, "panic") {
+		x.ctl.Note("import", "tp")
+		report(x, "nilrace", 0, "i0", false, 0, 0, false, "panic", fmt.Sprintf(" worker_held_before_queue_creation=%v detail=%q", held, res))
+		return
+	}
+	if res != "ok" {
+		fail("import: %s", res)
+	}
+	x.stop()
+	out := finish(x, true)
+	report(x, "nilrace", 0, "i0", true, 0, 0, false, out, fmt.Sprintf(" worker_held_before_queue_creation=%v", held))
 }
 
-func main() {
-	scen := flag.String("scenario", "", "scenario to run in this process")
-	worker := flag.Bool("worker", false, "internal")
-	flag.Parse()
-	_ = worker
+// raceStop: no steering at all — requests and Stop issued back to back (exploration).
+func raceStop(seed uint64, n int) {
+	r := rng.New(seed*7919 + uint64(n))
+	x, err := newWorld(seed+uint64(n), 2)
+	if err != nil {
+		fail("%v", err)
+	}
+	defer x.cleanup()
+	if err := x.start(r.Bool()); err != nil {
+		fail("%v", err)
+	}
+	x.ctl.SetHold(true)
+	x.autoGrant()
+	var reqs []string
+	nb := 0
+	wid, pass, err := x.createWallet()
+	if err != nil {
+		fail("create: %v", err)
+	}
+	for i, k := 0, 1+r.Intn(3); i < k; i++ {
+		switch r.Intn(3) {
+		case 0:
+			b, _ := x.mine()
+			x.ctl.Note("node", "a")
+			x.w.H.OnBlockConnected(b.MsgBlock())
+			nb++
+		case 1:
+			if len(reqs) < 2 {
+				apiCall(x, 'i', nil, true)
+				reqs = append(reqs, "i0")
+			}
+		case 2:
+			if wid != "" && len(reqs) < 2 {
+				rem := []rw{{wid, pass}}
+				apiCall(x, 'r', &rem, true)
+				reqs = append(reqs, "r0")
+				wid = ""
+			}
+		}
+		if r.Chance(30) {
+			time.Sleep(time.Duration(r.Intn(300)) * time.Microsecond)
+		}
+	}
+	x.stop()
+	out := finish(x, true)
+	x.autoStop = true
+	x.ctl.SetHold(false)
+	report(x, fmt.Sprintf("race-stop/%d", n), nb, strings.Join(reqs, ","), true, 0, 0, false, out, "")
+}
+
+func field(line, key string) string {
+	for _, f := range strings.Fields(line) {
+		if strings.HasPrefix(f, key+"=") {
+			return f[len(key)+1:]
+		}
+	}
+	return ""
+}
+
+func runWorker(spec, scen string) {
 	sim.Init(sim.Params{CoinbaseMaturity: 4, MinFrozenPeriod: 2, GapLimit: 20})
 	seed := rng.Seed()
-	switch *scen {
-	case "f1det-remove":
+	switch {
+	case spec != "":
+		blocks, _ := strconv.Atoi(field(spec, "blocks"))
+		reqs := field(spec, "reqs")
+		if reqs == "-" {
+			reqs = ""
+		}
+		var seq []string
+		if s := field(spec, "seq"); s != "" && s != "-" {
+			seq = strings.Split(s, ",")
+		}
+		runSeq(seed, field(spec, "id"), blocks, reqs, field(spec, "stop") == "1", seq)
+	case scen == "f1det-remove":
 		f1det(seed, "remove")
-	case "f1det-import":
+	case scen == "f1det-import":
 		f1det(seed, "import")
-	case "nilrace":
+	case scen == "nilrace":
 		nilrace(seed)
+	case strings.HasPrefix(scen, "race-stop/"):
+		n, _ := strconv.Atoi(scen[len("race-stop/"):])
+		raceStop(seed, n)
 	default:
 		fmt.Fprintln(os.Stderr, "unknown scenario")
 		os.Exit(2)
 	}
-	os.Exit(0)
+}
+
+func main() {
+	scen := flag.String("scenario", "", "built-in scenario to run in this process")
+	spec := flag.String("spec", "", "schedule line to run in this process")
+	worker := flag.Bool("worker", false, "run one schedule in this process")
+	in := flag.String("in", "", "file with S lines")
+	out := flag.String("out", "", "result file")
+	jobs := flag.Int("j", 8, "parallel worker processes")
+	nrace := flag.Int("race", 0, "number of unsteered request/Stop races to add")
+	flag.Parse()
+	if *worker || *scen != "" || *spec != "" {
+		runWorker(*spec, *scen)
+		os.Stdout.Sync()
+		os.Exit(0)
+	}
+	// parent
+	type job struct {
+		args []string
+		id   string
+	}
+	var jobsList []job
+	for _, s := range []string{"f1det-remove", "f1det-import", "nilrace"} {
+		jobsList = append(jobsList, job{[]string{"-worker", "-scenario", s}, s})
+	}
+	if *in != "" {
+		f, err := os.Open(*in)
+		if err != nil {
+			fmt.Fprintln(os.Stderr, err)
+			os.Exit(2)
+		}
+		sc := bufio.NewScanner(f)
+		sc.Buffer(make([]byte, 1<<20), 1<<20)
+		for sc.Scan() {
+			l := sc.Text()
+			if strings.HasPrefix(l, "S ") {
+				jobsList = append(jobsList, job{[]string{"-worker", "-spec", l}, field(l, "id")})
+			}
+		}
+		f.Close()
+	}
+	for i := 0; i < *nrace; i++ {
+		s := fmt.Sprintf("race-stop/%d", i)
+		jobsList = append(jobsList, job{[]string{"-worker", "-scenario", s}, s})
+	}
+	self, _ := os.Executable()
+	results := make([][]byte, len(jobsList))
+	var wg sync.WaitGroup
+	sem := make(chan struct{}, *jobs)
+	for i, j := range jobsList {
+		wg.Add(1)
+		sem <- struct{}{}
+		go func(i int, j job) {
+			defer wg.Done()
+			defer func() { <-sem }()
+			cmd := exec.Command(self, j.args...)
+			var so, se bytes.Buffer
+			cmd.Stdout, cmd.Stderr = &so, &se
+			if err := cmd.Start(); err != nil {
+				results[i] = []byte(fmt.Sprintf("X id=%s cannot-start %v\n", j.id, err))
+				return
+			}
+			done := make(chan error, 1)
+			go func() { done <- cmd.Wait() }()
+			select {
+			case err := <-done:
+				if err != nil {
+					tail := se.String()
+					if len(tail) > 1500 {
+						tail = tail[len(tail)-1500:]
+					}
+					so.WriteString(fmt.Sprintf("X id=%s worker-died %v %q\n", j.id, err, tail))
+				}
+			case <-time.After(40 * time.Second):
+				cmd.Process.Kill()
+				so.WriteString(fmt.Sprintf("X id=%s worker-killed-after-40s\n", j.id))
+			}
+			results[i] = so.Bytes()
+		}(i, j)
+	}
+	wg.Wait()
+	w := os.Stdout
+	if *out != "" {
+		f, err := os.Create(*out)
+		if err != nil {
+			fmt.Fprintln(os.Stderr, err)
+			os.Exit(2)
+		}
+		defer f.Close()
+		w = f
+	}
+	for _, r := range results {
+		w.Write(r)
+	}
 }
